@@ -104,6 +104,20 @@ claim('C08', 'proof',
       'Lean 4 proof over exact rationals + correspondence; closed counter-example witness for the known finding',
       'DESIGN.md section 5 C08')
 
+claim('C20', 'proof',
+      'Lean 4 theorems C20_* about the config machine: config_context restores the previous setting for any body, any '
+      'nesting and when left by an exception; thread isolation for EVERY interleaving of any number of threads '
+      '(induction over the schedule); a fresh thread reads the module default; structured programs and atom schedules '
+      'agree. Correspondence: random schedules realised deterministically on 1..3 real threads and random structured '
+      'programs with nested with-blocks and exceptions, every get_config() value compared. Flag irrelevance: every '
+      'public computation run with skip_validation off/on must be bit-identical (and equals the Lean model under '
+      'skip_validation=True for transform and the round trip).',
+      'Lean kernel + standard axioms; the tie between the machine and CPython threading.local is sampled; "skipping '
+      'validation never changes results" is decided by differential execution under the guard that all values stay '
+      'finite - the non-finite case is known finding F-diverge.',
+      'Lean 4 proof (induction over schedules / program trees) + deterministic multi-thread correspondence + differential execution',
+      'DESIGN.md section 5 C20')
+
 ALL = [f'C{i:02d}' for i in range(1, 21)]
 
 
